@@ -642,20 +642,21 @@ Proof.
   apply H; [cbn; congruence|rewrite bswrite_pot, pot_new_reader; lia].
 Qed.
 
+Definition smtp_end (o : outcome) : Prop := o = Returned \/ o = Panicked \/ o = Unmodelled.
+
 Lemma smtp_loop_ends fuel st i b :
   b_err b <> EBufFull -> (pot b + 3 <= fuel)%nat ->
-  fst (smtp_loop fuel st i b) = Returned \/ fst (smtp_loop fuel st i b) = Unmodelled.
+  smtp_end (fst (smtp_loop fuel st i b)).
 Proof.
   revert st i b; induction fuel as [|f IH]; intros st i b Hnf Hp; [lia|]. cbn [smtp_loop].
   destruct (text_line_spec (S f) None b Hnf Hp) as (line & e & b1 & H & P1 & P2 & P3 & P4 & P5).
-  rewrite H. destruct e; cbn [fst]; auto; try congruence.
+  rewrite H. unfold smtp_end. destruct e; cbn [fst]; auto; try congruence.
   specialize (P2 eq_refl).
-  assert (forall st' i' k, fst (smtp_loop f st' i' (nwrites k b1)) = Returned \/
-                           fst (smtp_loop f st' i' (nwrites k b1)) = Unmodelled) as Hgo.
+  assert (forall st' i' k, smtp_end (fst (smtp_loop f st' i' (nwrites k b1)))) as Hgo.
   { intros; apply IH; [rewrite nwrites_err; exact P4|rewrite nwrites_pot; lia]. }
   pose proof (fun st' i' => Hgo st' i' O) as Hgo0.
   pose proof (fun st' i' => Hgo st' i' 1%nat) as Hgo1.
-  cbn [nwrites] in Hgo0, Hgo1.
+  cbn [nwrites] in Hgo0, Hgo1. unfold smtp_end in *.
   destruct st;
     repeat match goal with
            | |- context [if ?x then _ else _] => destruct x
@@ -664,8 +665,7 @@ Proof.
 Qed.
 
 Lemma handle_smtp_ends fuel c :
-  (weight c + 3 <= fuel)%nat ->
-  h_out (handle_smtp fuel c) = Returned \/ h_out (handle_smtp fuel c) = Unmodelled.
+  (weight c + 3 <= fuel)%nat -> smtp_end (h_out (handle_smtp fuel c)).
 Proof.
   intros Hf; unfold handle_smtp.
   pose proof (smtp_loop_ends fuel SHello 0 (bswrite (new_reader c))) as H.
@@ -825,7 +825,7 @@ Definition fstep_ok (st : fstep) : Prop :=
   match st with
   | FGo s => ftp_inv s
   | FClosed s => ftp_inv s /\ f_data s = DNone
-  | FPanic s => ftp_inv s /\ f_data s = DPassive DialNone
+  | FPanic s => ftp_inv s
   | FOut => True
   end.
 
@@ -834,12 +834,13 @@ Proof.
   intros Hi; unfold ftp_cmd.
   destruct (parse_line line) as [c p].
   pose proof (open_passive_inv dial s Hi) as [O1 O2].
-  pose proof (open_passive_inv DialNone s Hi) as O3.
+  pose proof (open_passive_inv DialNone s Hi) as [O3 _].
   pose proof (close_data_inv s Hi) as C1.
   pose proof (close_data_inv (pwait s) (pwait_inv s Hi)) as [C2 _].
   destruct (classify c); cbn [fst fstep_ok];
     repeat match goal with
            | |- context [if ?x then _ else _] => destruct x
+           | |- context [match atoi ?x with _ => _ end] => destruct (atoi x)
            end; cbn [fst fstep_ok]; auto using set_user_inv.
   destruct C1 as [C1 _]. destruct (f_data s) as [|[]]; cbn [fst fstep_ok]; auto.
 Qed.
@@ -847,7 +848,7 @@ Qed.
 Lemma ftp_loop_inv fuel v6 dial s b :
   ftp_inv s ->
   let '(o, s', _) := ftp_loop fuel v6 dial s b in
-  ftp_inv s' /\ (o = Returned -> f_data s' = DNone) /\ (o = Panicked -> f_data s' = DPassive DialNone).
+  ftp_inv s' /\ (o = Returned -> f_data s' = DNone).
 Proof.
   revert s b; induction fuel as [|f IH]; intros s b Hi; cbn [ftp_loop].
   - repeat split; auto; congruence.
@@ -859,35 +860,42 @@ Proof.
     destruct st; cbn [fstep_ok] in Hc.
     + apply IH; exact Hc.
     + destruct Hc; repeat split; auto; congruence.
-    + destruct Hc; repeat split; auto; congruence.
+    + repeat split; auto; congruence.
     + repeat split; auto; congruence.
 Qed.
 
-(* when the control loop returns nothing is held; after the recovered panic exactly the
-   unconnected passive socket is, and it sits on its Accept deadline *)
+(* when the control loop returns nothing is held.  After a recovered panic (ftp's own
+   Conn.Close() is not reached) the session's data socket is left as it is: an unconnected
+   passive socket sits on its Accept deadline; an ACCEPTED data connection is kept *)
+Definition ftp_panic_kept (d : dsock) : res := if data_connected d then mkRes 0 0 1 else res0.
+
 Lemma handle_ftp_res v6 dial fuel c :
   let h := handle_ftp v6 dial fuel c in
   (h_out h = Returned -> h_res h = res0 /\ h_late h = res0) /\
-  (h_out h = Panicked -> h_res h = mkRes 1 1 1 /\ h_late h = mkRes 1 1 1).
+  (h_out h = Panicked -> kept h = ftp_panic_kept (ftp_final_data v6 dial fuel c)).
 Proof.
-  unfold handle_ftp, handle_ftp_st.
+  unfold handle_ftp, ftp_final_data, handle_ftp_st.
   pose proof (ftp_loop_inv fuel v6 dial ftp_init (bswrite (new_reader c)) ftp_init_inv) as H.
   destruct (ftp_loop fuel v6 dial ftp_init (bswrite (new_reader c))) as [[o s] b].
-  destruct H as (Hi & Hr & Hp). cbn [h_out h_res h_late]. unfold ftp_inv in Hi.
+  destruct H as (Hi & Hr). cbn [h_out h_res h_late fst snd]. unfold ftp_inv in Hi.
   split; intros Ho; subst o.
   - rewrite (Hr eq_refl) in Hi; cbn [shape] in Hi. injection Hi as A B C.
     unfold ftp_res, ftp_late. rewrite B, C. replace (f_gor s - 1) with 0 by lia. split; reflexivity.
-  - rewrite (Hp eq_refl) in Hi; cbn [shape] in Hi. injection Hi as A B C.
-    unfold ftp_res, ftp_late. rewrite (Hp eq_refl), B, C. replace (f_gor s - 1) with 1 by lia. split; reflexivity.
+  - unfold kept, ftp_res, ftp_late, ftp_panic_kept, data_connected; cbn [h_res h_late].
+    destruct (f_data s) as [|[]]; cbn [shape connected] in *; injection Hi as A B C;
+      rewrite B, C; unfold res_sub, res0; cbn [r_gor r_lis r_fds]; f_equal; lia.
 Qed.
 
 Lemma handle_ftp_kept v6 dial fuel c :
-  finished (h_out (handle_ftp v6 dial fuel c)) = true -> kept (handle_ftp v6 dial fuel c) = res0.
+  finished (h_out (handle_ftp v6 dial fuel c)) = true ->
+  ~ (h_out (handle_ftp v6 dial fuel c) = Panicked /\ data_connected (ftp_final_data v6 dial fuel c) = true) ->
+  kept (handle_ftp v6 dial fuel c) = res0.
 Proof.
   pose proof (handle_ftp_res v6 dial fuel c) as [Hr Hp]. cbv zeta in Hr, Hp.
-  unfold kept. destruct (h_out (handle_ftp v6 dial fuel c)); cbn [finished]; try congruence; intros _.
-  - destruct (Hr eq_refl) as [-> ->]; reflexivity.
-  - destruct (Hp eq_refl) as [-> ->]; reflexivity.
+  destruct (h_out (handle_ftp v6 dial fuel c)) eqn:E; cbn [finished]; try congruence; intros _ Hn.
+  - destruct (Hr eq_refl) as [A B]. unfold kept; rewrite A, B; reflexivity.
+  - rewrite (Hp eq_refl). unfold ftp_panic_kept.
+    destruct (data_connected _) eqn:D; [exfalso; apply Hn; auto|reflexivity].
 Qed.
 
 (* every other service holds nothing when Handle is over, whatever happened *)
@@ -929,15 +937,23 @@ Proof.
   - rewrite handle_tftp_returns; auto.
   - rewrite handle_memcached_returns; auto.
   - pose proof (handle_ftp_ends v6 dial (fuel_for c) c Hf) as [H|[H|H]]; rewrite H in *; auto; congruence.
-  - pose proof (handle_smtp_ends (fuel_for c) c Hf) as [H|H]; rewrite H in *; auto; congruence.
+  - pose proof (handle_smtp_ends (fuel_for c) c Hf) as [H|[H|H]]; rewrite H in *; auto; congruence.
 Qed.
 
+(* the one thing the repaired code still keeps: the accepted data connection of an ftp session
+   that ends in a recovered panic (PORT / EPRT with too few fields, PASV on an IPv6 address) *)
+Definition panic_keeps_data_conn (s : scn) (c : conn) : Prop :=
+  sc_svc s = Ftp /\ h_out (handle s (fuel_for c) c) = Panicked /\
+  data_connected (ftp_final_data (sc_v6 s) (sc_dial s) (fuel_for c) c) = true.
+
 Lemma handle_kept s c :
-  h_out (handle s (fuel_for c) c) <> Unmodelled -> kept (handle s (fuel_for c) c) = res0.
+  h_out (handle s (fuel_for c) c) <> Unmodelled -> ~ panic_keeps_data_conn s c ->
+  kept (handle s (fuel_for c) c) = res0.
 Proof.
-  intros Hu. pose proof (handle_ends s c Hu) as Hfin.
+  intros Hu Hn. pose proof (handle_ends s c Hu) as Hfin.
   destruct (svc_eq_dec (sc_svc s) Ftp) as [E|E].
-  - unfold handle in *; rewrite E in *. apply handle_ftp_kept; exact Hfin.
+  - unfold panic_keeps_data_conn in Hn. unfold handle in *; rewrite E in *.
+    apply handle_ftp_kept; [exact Hfin|]. intros [A B]; apply Hn; auto.
   - destruct (handle_other_res s (fuel_for c) c E) as [H1 H2]. unfold kept; rewrite H1, H2; reflexivity.
 Qed.
 
@@ -974,15 +990,26 @@ Qed.
 
 Definition in_fragment (s : scn) (c : conn) : Prop := h_out (handle s (fuel_for c) c) <> Unmodelled.
 
-Lemma history_zero s cs : Forall (in_fragment s) cs -> history s cs = res0.
+Definition covered (s : scn) (c : conn) : Prop := in_fragment s c /\ ~ panic_keeps_data_conn s c.
+
+Lemma history_zero s cs : Forall (covered s) cs -> history s cs = res0.
 Proof.
-  induction 1 as [|c cs Hc _ IH]; cbn [history]; [reflexivity|].
-  rewrite IH, (handle_kept s c Hc); reflexivity.
+  induction 1 as [|c cs [Hc Hn] _ IH]; cbn [history]; [reflexivity|].
+  rewrite IH, (handle_kept s c Hc Hn); reflexivity.
 Qed.
 
-Lemma history_repeat_zero s c n : in_fragment s c -> history s (repeat c n) = res0.
+Lemma history_repeat_zero s c n : covered s c -> history s (repeat c n) = res0.
 Proof.
-  intros Hc. rewrite history_repeat, (handle_kept s c Hc). unfold res_scale, res0; cbn; f_equal; lia.
+  intros [Hc Hn]. rewrite history_repeat, (handle_kept s c Hc Hn). unfold res_scale, res0; cbn; f_equal; lia.
+Qed.
+
+(* inside that class exactly one descriptor per session stays *)
+Lemma panic_keeps_one s c :
+  panic_keeps_data_conn s c -> kept (handle s (fuel_for c) c) = mkRes 0 0 1.
+Proof.
+  intros (E & Ho & D). unfold handle in *; rewrite E in *.
+  destruct (handle_ftp_res (sc_v6 s) (sc_dial s) (fuel_for c) c) as [_ Hp].
+  rewrite (Hp Ho). unfold ftp_panic_kept; rewrite D; reflexivity.
 Qed.
 
 (* ------------------------------------------------------------------ *)
